@@ -1,22 +1,15 @@
-"""Decoders that no property anchors and the Lean model does not cover (H264 / NAL, ADTS, the STANAG 4609
-SEI class, ParserAligned.ARINC429, IPv6, ICMP): C08 still runs them on arbitrary and structured bytes under
-the watchdog and the allocation ceiling (a test, labelled as such in DESIGN §1/§8 — no theorem is claimed)."""
+"""Decoders that the Lean model does not cover: C08 runs them on arbitrary and structured bytes under the watchdog and
+the allocation ceiling only (a test, labelled as such — no theorem is claimed).
+
+The registry is EMPTY since the `extra` family (harness/families/extra.py, lean/Acra/Model/Extra*.lean) models
+H264 / NAL, ADTS, STANAG4609_SEI, ParserAligned.ARINC429 and IPv6; ICMP has been in the `net` family all along
+(Model/Net.lean, `ICMP_unpack_total`).  A decoder added to the library before its model exists goes here."""
 import tracemalloc
 from ..core import guarded, WATCHDOG_S
 from ..runner import Failure
 
 def _decoders():
-    import AcraNetwork.MPEG.H264 as h264, AcraNetwork.MPEG.ADTS as adts, AcraNetwork.MPEG.STANAG4609 as sei
-    import AcraNetwork.ParserAligned as pa, AcraNetwork.SimpleEthernet as eth
-    return {
-        "H264": lambda b: h264.H264().unpack(b),
-        "NAL": lambda b: h264.NAL().unpack(b),
-        "ADTS": lambda b: adts.ADTS().unpack(b),
-        "STANAG4609_SEI": lambda b: sei.STANAG4609_SEI().unpack(b),
-        "ParserAligned.ARINC429": lambda b: pa.ARINC429().unpack(b),
-        "IPv6": lambda b: eth.IPv6().unpack(b),
-        "ICMP": lambda b: eth.ICMP().unpack(b),
-    }
+    return {}
 
 def check_unmodelled_total(args):
     name, b = args["decoder"], bytes.fromhex(args["buf"])
